@@ -313,7 +313,7 @@ class _Run(object):
         return
       if not as_expected:
         self.fail("use-emission", "%s with buffer %d (%s; frame of %d bytes from port %d) through %r emitted %s and %d packet-ins; expected nothing, or %s and %d packet-ins" % (
-            via, bid, how, len(frame), in_port, acts, _brief(emitted), len(pins), _brief(want_emits), len(want_ctl)), via=via)
+            via, bid, how, len(frame), in_port, acts, _brief(emitted), len(pins), _brief(want_emits), len(want_ctl)), what=_what_differs(emitted, want_emits))
         pool.forget(bid)
         pool.limbo.pop(bid, None)
         return
@@ -322,7 +322,7 @@ class _Run(object):
     else:
       if emitted != want_emits:
         self.fail("use-emission", "%s with outstanding buffer %d (frame of %d bytes from port %d) through %r emitted %s, expected %s" % (
-            via, bid, len(frame), in_port, acts, _brief(emitted), _brief(want_emits)), via=via)
+            via, bid, len(frame), in_port, acts, _brief(emitted), _brief(want_emits)), what=_what_differs(emitted, want_emits))
       if len(pins) != len(want_ctl):
         self.fail("packet-in-count", "%s: %d packet-ins for %d controller actions" % (where, len(pins), len(want_ctl)), kind="use")
     # the packet went through the actions: the id is consumed by this use
@@ -402,6 +402,13 @@ class _Run(object):
     if self.double:
       out.label("nt-double-use")
     out.label("pool-size-%d" % self.maxb)
+
+
+def _what_differs(emitted, want):
+  """'frames' when the right ports got a packet but not the stored one, else 'ports'"""
+  if [p for p, _ in emitted] == [p for p, _ in want]:
+    return "frames"
+  return "ports"
 
 
 def _brief(emits):
